@@ -33,11 +33,13 @@ class PipelineCheck(Check):
                 return False
         if case.get('end') not in ('complete', 'error', 'dispose'):
             return False
+        if case.get('driver', 'hot') not in ('hot', 'cold') or (case.get('driver') == 'cold' and case.get('end') == 'dispose'):
+            return False
         return valid(case['program'], self.start_st(), self.flags())
 
     def normalize(self, case):
         case = dict(case)
-        case['events'] = renumber(case['events'])
+        case['events'] = renumber(case['events'], monotonic=not case.get('skew'))
         return case
 
     def sizes(self, rng, tier):
